@@ -6,6 +6,7 @@ Property theorems only (lemmas: Lemmas/ParserUtf8.lean, ParserTextU.lean, Parser
 -/
 import VaxisModel.Lemmas.ParserRead
 import VaxisModel.Lemmas.ParserConform
+import VaxisModel.Gen.ParserReader
 
 namespace VaxisModel.Props.C02Text
 open VaxisModel.Model.ParserTable VaxisModel.Model.Parser VaxisModel.Model.ParserIO VaxisModel.Model.ParserUtf8
@@ -50,6 +51,21 @@ example : decodeRunes [0xC0, 0x80, 0xED, 0xA0, 0x80, 0xF5, 0x41, 0xE2, 0x82, 0xA
 theorem utf8_units_partition (bs : List Nat) :
     (units bs).flatMap U.bytes = bs ∧ ∀ u ∈ units bs, u.inv = false → IsScalar u.raw :=
   units_bytes bs
+
+/-! ## The reading side of the source -/
+
+/-- **The bodies of `readRune`, `print` and `emit` in ansi/parser.go are the ones the model
+    transcribes** (regenerated on this run, statement by statement): `ReadRune`; stop the timer; the
+    raw-byte fallback under exactly `r == ReplacementChar && size == 1` (the same flag the model's
+    `readRune` reads from `Gen.ParserTable`); error ⇒ `eof`; — the builder, the look-ahead loop
+    `for p.r.Buffered() > 0 { ReadRune; WriteRune; FirstGraphemeClusterInString; if rest != "" {
+    UnreadRune; break } }` (no fallback inside: F102d), the width, the `Print`; — one channel send.
+    No statement outside the vocabulary. -/
+theorem reader_skeleton_recognised :
+    Gen.ParserReader.readRuneBody = Model.ParserReaderSk.handReadRune Gen.ParserTable.fallbackOnlyInvalid ∧
+    Gen.ParserReader.printBody = Model.ParserReaderSk.handPrint ∧
+    Gen.ParserReader.emitBody = Model.ParserReaderSk.handEmit ∧
+    Gen.ParserReader.unrecognised = [] ∧ Gen.ParserTable.fallbackOnlyInvalid = true := by decide
 
 /-! ## The reads disappear -/
 
